@@ -135,7 +135,7 @@ fn run_server(op: &Value) -> Value {
         state,
         sequential_ids: Some(false),
         configuration: Default::default(),
-        lsp_client: LspClient::Unknown,
+        lsp_client: if op["request"].as_str() == Some("code_action_range") { LspClient::Helix } else { LspClient::Unknown },
     });
     if let Some(edits) = op.get("edits").and_then(|e| e.as_array()) {
         for e in edits {
@@ -212,6 +212,22 @@ fn run_server(op: &Value) -> Value {
             text_document: tdi,
             range: Range::new(Position::new(0, 0), Position::new(99, 0)),
         })).unwrap(),
+        "code_action_range" => {
+            // a client that sends non-empty ranges: the same start line with an empty and with a wide range
+            let line = op["line"].as_u64().unwrap_or(0) as u32;
+            let mut out = vec![];
+            for end in [line, line + 2] {
+                let acts = server.handle_code_action(&CodeActionParams {
+                    text_document: tdi.clone(),
+                    range: Range::new(Position::new(line, 0), Position::new(end, 0)),
+                    context: Default::default(),
+                    work_done_progress_params: Default::default(),
+                    partial_result_params: Default::default(),
+                });
+                out.push(acts.iter().map(|a| match a { CodeActionOrCommand::CodeAction(ca) => json!([ca.title, ca.data]), _ => json!(null) }).collect::<Vec<_>>());
+            }
+            json!(out)
+        }
         "code_action" => {
             let mut out = vec![];
             for line in [0u32, 2, 4, 6] {
